@@ -258,7 +258,7 @@ class SSHConnection(service.SSHService):
             # packet = packet[:channel.localWindowLeft+4]
         data = common.getNS(packet[4:])[0]
         channel.localWindowLeft -= dataLength
-        if channel.localWindowLeft < channel.localWindowSize // 2:
+        if channel.localWindowLeft < max(channel.localWindowSize // 2, 1):
             self.adjustWindow(
                 channel, channel.localWindowSize - channel.localWindowLeft
             )
@@ -285,7 +285,7 @@ class SSHConnection(service.SSHService):
             return
         data = common.getNS(packet[8:])[0]
         channel.localWindowLeft -= dataLength
-        if channel.localWindowLeft < channel.localWindowSize // 2:
+        if channel.localWindowLeft < max(channel.localWindowSize // 2, 1):
             self.adjustWindow(
                 channel, channel.localWindowSize - channel.localWindowLeft
             )
